@@ -326,8 +326,10 @@ def make_params(scn):
                             refineSolution=bool(scn.get("refine", False)))
 
 
-def run_pattern(solver, pattern, after_step=None):
-    """pattern: list of ['iter', k] / ['solve'] steps.  Returns (list of returned Solutions, stdout)."""
+def run_pattern(solver, pattern, after_step=None, caller_params=None):
+    """pattern: list of ['iter', k] / ['solve'] steps.  Returns (list of returned Solutions, stdout).
+    caller_params: the SolverParameters object the caller handed to the Solver (a 'set' step edits that object: the library
+    keeps a reference to it, so the user's own handle and solver.parameters are the same live object)."""
     out = io.StringIO()
     sols = []
     with contextlib.redirect_stdout(out):
@@ -355,9 +357,17 @@ def run_pattern(solver, pattern, after_step=None):
                     ev.GetInverseImage(y_)
                     ev.GetPreimages(list(y_))
                     ev.GetImage(float(g.random()))
+            elif step[0] == "listen":
+                # the user attaches one more (do-nothing) observer while the search is under way
+                from iOpt.method.listener import Listener
+                solver.AddListener(Listener())
             elif step[0] == "set":
                 # the user edits the public SolverParameters object between calls (e.g. raises itersLimit and solves on)
-                setattr(solver.parameters, step[1], step[2])
+                # (every other edit goes through the handle the user kept, the rest through solver.parameters)
+                tgt = solver.parameters
+                if caller_params is not None and (n + len(pattern)) % 2 == 0:
+                    tgt = caller_params
+                setattr(tgt, step[1], step[2])
             else:
                 raise ValueError(step)
             if after_step is not None:
@@ -400,7 +410,7 @@ def run_solver(scn, listener=True, cap="auto", fault=None, after_step=None, insi
     t.aborted = False
     t.fp_exhausted = False
     try:
-        t.solutions, t.stdout = run_pattern(solver, pattern, after_step=after_step)
+        t.solutions, t.stdout = run_pattern(solver, pattern, after_step=after_step, caller_params=params)
     except FpDomainExhausted:
         t.fp_exhausted = True
         t.solutions, t.stdout = [], ""
@@ -498,6 +508,34 @@ def trial_sequence(t):
     if k != len(glog):
         problems.append("%d evaluations logged in the global phase but %d trials delivered to the listener" % (len(glog), k))
     return xs, zs, problems
+
+
+def first_trial_problems(t, scn):
+    """'The first trial is the evolvent image of x=0.5' for the configured (N, m, box): for N=1 that is the midpoint of the
+    segment; for N>=2 it is the centre of a cell of the 2^m grid of the configured box (centres of any other density are at
+    least a quarter of a cell away).  Returns a list of violation dicts."""
+    glog = [e for e in t.log if e["ph"] == "g"]
+    if not glog:
+        return []
+    lo = np.array(scn["lower"], dtype=float)
+    side = np.array(scn["upper"], dtype=float) - lo
+    y = np.asarray(glog[0]["y"], dtype=float)
+    if y.shape != lo.shape:
+        return [{"mech": "first-trial:shape", "point": y.tolist()}]
+    m = int(scn["m"])
+    ulp = np.spacing(np.maximum(np.abs(lo), np.abs(lo + side)))
+    if scn["N"] == 1:
+        if abs(y[0] - (lo[0] + 0.5 * side[0])) > 8 * ulp[0]:
+            return [{"mech": "first-trial:not-the-image-of-0.5", "point": y.tolist(), "expected": [float(lo[0] + 0.5 * side[0])]}]
+        return []
+    tol = np.maximum(1e-6, 8.0 * ulp / side * (2.0 ** m))
+    if np.any(tol > 0.1):
+        return []
+    q = (y - lo) / side * (2.0 ** m) - 0.5
+    j = np.rint(q)
+    if np.any(np.abs(q - j) > tol) or np.any(j < 0) or np.any(j >= 2 ** m):
+        return [{"mech": "first-trial:not-a-cell-centre-of-the-configured-density", "m": m, "point": y.tolist(), "grid_coordinate": q.tolist()}]
+    return []
 
 
 def same_value(a, b):
